@@ -38,6 +38,8 @@ func init() {
 	generators["hungrestart"] = genHungRestart
 	generators["healthconn"] = genHealthConn
 	generators["dupacquire"] = genDupAcquire
+	generators["doublestop"] = genDoubleStop
+	generators["chaintakeover"] = genChainTakeover
 }
 
 func anyLatency(r rng, h time.Duration) Latency {
@@ -2270,6 +2272,104 @@ func genDupAcquire(r rng, k int) *Spec {
 	// periodic check 500 ms later); then the first answer is let through
 	s.Actions = append(s.Actions, Action{After: 700*ms + after, Kind: "release", Break: "c1"})
 	s.Duration = 6 * h
+	s.Sample = sampleFor(h)
+	return s
+}
+
+// ---------------------------------------------------------------------------
+// doublestop: a leader is stopped gracefully (DeleteKey); its Delete takes a while
+// (well under H/2). Meanwhile the same election is started again - it finds its own old
+// record and settles as a follower - and is stopped gracefully a second time. Other
+// instances stand by. Fault-free, latencies below H/2: the premises of C02/C07 hold.
+// ---------------------------------------------------------------------------
+
+// DoubleStopTotal is the size of the enumeration.
+func DoubleStopTotal() int { return 3 * 3 * 2 }
+
+func genDoubleStop(r rng, k int) *Spec {
+	idx := k % DoubleStopTotal()
+	phase := []string{"req", "req", "resp"}[idx%3]
+	heldFor := idx % 3 // how long the first Delete is held: 0.1 H, 0.25 H, 0.4 H
+	idx /= 3
+	second := []StopVariant{{DeleteKey: true, Wait: true, Timeout: 5 * sec}, {DeleteKey: true, Timeout: 5 * sec}, {Plain: true}}[idx%3]
+	idx /= 3
+	three := idx%2 == 1
+	h := r.pickD(2*sec, 3*sec)
+	s := &Spec{TTL: 3 * h, Benign: true, NoPreempt: true, Tags: []string{"lifecycle", "doublestop"}}
+	s.Lat = Latency{Min: ms, Max: r.pickD(2*ms, 10*ms)}
+	n := 2
+	if three {
+		n = 3
+	}
+	s.Insts = mkInsts(n, 1, h)
+	hold := []time.Duration{h / 10, h / 4, h * 4 / 10}[heldFor]
+	s.Breaks = []BreakSpec{{Name: "d1", Client: "i0", Op: "Delete", Nth: 1, Phase: phase, Armed: true}}
+	s.Actions = append(s.Actions, Action{At: 10 * ms, Kind: "start", Inst: "i0"}, Action{At: 300 * ms, Kind: "start", Inst: "i1"})
+	if three {
+		s.Actions = append(s.Actions, Action{At: 600 * ms, Kind: "start", Inst: "i2"})
+	}
+	t := 2*h + 100*ms
+	s.Actions = append(s.Actions,
+		Action{At: t, Kind: "stop", Inst: "i0", Stop: &StopVariant{DeleteKey: true, Wait: false, Timeout: 10 * sec}},
+		Action{After: ms, Kind: "waitbreak", Break: "d1", D: 3 * sec},
+		Action{After: ms, Kind: "start", Inst: "i0"},
+		Action{After: 30 * ms, Kind: "stop", Inst: "i0", Stop: &second},
+		Action{After: hold, Kind: "release", Break: "d1"},
+		Action{After: ms, Kind: "waitapi", Inst: "i0", D: 8 * sec},
+	)
+	s.Duration = 3 * h
+	s.Sample = sampleFor(h)
+	return s
+}
+
+// ---------------------------------------------------------------------------
+// chaintakeover: a chain of legitimate preemptions - mid (priority 2) takes the record
+// over from low (priority 1) and is held for a preemption-sized moment between its store
+// call and becomeLeader; high (priority 3) takes the record over from mid meanwhile; mid's
+// watcher sees high's record; then mid goes on. Fault-free.
+// ---------------------------------------------------------------------------
+
+// ChainTakeoverTotal is the size of the enumeration.
+func ChainTakeoverTotal() int { return 3 * 2 * 2 }
+
+func genChainTakeover(r rng, k int) *Spec {
+	idx := k % ChainTakeoverTotal()
+	hold := []time.Duration{50 * ms, 200 * ms, 600 * ms}[idx%3]
+	idx /= 3
+	site := []string{"becomeLeaderEntry", "becomeLeaderEntry"}[idx%2]
+	midFollowerFirst := idx%2 == 1
+	idx /= 2
+	highTakeover := idx%2 == 0
+	h := r.pickD(500*ms, 1*sec)
+	s := &Spec{TTL: 5 * h, Tags: []string{"priority", "chaintakeover"}}
+	s.Lat = Latency{Min: ms, Max: r.pickD(2*ms, 5*ms)}
+	s.Insts = mkInsts(3, 1, h)
+	s.Insts[0].Priority = 1
+	s.Insts[1].Priority, s.Insts[1].Takeover = 2, true
+	s.Insts[2].Priority, s.Insts[2].Takeover = 3, highTakeover
+	s.Breaks = []BreakSpec{{Name: "ct", Client: "*", Op: "yield:" + site, Nth: 1, Phase: "site"}, {Name: "ct2", Client: "*", Op: "yield:" + site, Nth: 1, Phase: "site"}}
+	s.Actions = append(s.Actions, Action{At: 10 * ms, Kind: "start", Inst: "i0"})
+	t := 2 * sec
+	if midFollowerFirst {
+		// mid's first attempt (from Start) fails on a read hiccup: it settles as a follower, its
+		// watch loop runs, and the takeover is then started by the watcher - so that its watch
+		// loop is there to tell it about high's record while it is held
+		s.Rules = append(s.Rules, FaultRule{Client: "i1", Op: "Get", FromOrd: 1, ToOrd: 1, Kind: "err", Err: "timeout"})
+		s.Tags = append(s.Tags, "mid-via-watcher")
+	}
+	s.Actions = append(s.Actions,
+		Action{At: t, Kind: "arm", Break: "ct"},
+		Action{Chain: true, Kind: "start", Inst: "i1"},
+		Action{After: ms, Kind: "waitbreak", Break: "ct", D: 3 * sec},
+		Action{Chain: true, Kind: "arm", Break: "ct2"},
+		Action{After: ms, Kind: "start", Inst: "i2"},
+		// high, too, is held for a moment between its store call and becomeLeader: mid goes on
+		// first (its term begins first, so its heartbeat ticks first), high a little later
+		Action{After: ms, Kind: "waitbreak", Break: "ct2", D: 3 * sec},
+		Action{After: hold, Kind: "release", Break: "ct"},
+		Action{After: r.pickD(20*ms, 100*ms), Kind: "release", Break: "ct2"},
+	)
+	s.Duration = 8 * h
 	s.Sample = sampleFor(h)
 	return s
 }
